@@ -562,6 +562,7 @@ func cmdReplay(args []string) int {
 		Thorough, Threads               bool
 		Preempt, Maxzeros               int
 		Crash                           map[string]string
+		Crash_kind                      int
 		Outs                            []int64
 	}
 	if err := json.Unmarshal(rd(args[0]), &rp); err != nil {
